@@ -44,6 +44,15 @@ func clientOps(rep *Report, f *icl.File, variant int) {
 		}
 	} else {
 		rep.count("client-op:create:ok")
+		// the file must be stored under the ID the client chose, and retrievable by it through the client
+		if g, _ := repo.GetFile(create.ID); g == nil {
+			rep.violate(Violation{Key: "C20:client-op:create:id-not-kept", What: "CreateICLFile succeeded but no file is stored under the ID the client submitted (" + create.ID + ")",
+				Replay: map[string]any{"id": create.ID}})
+			return
+		}
+		if _, _, err := api.GetICLFileByID(ctx, create.ID, nil); err != nil {
+			rep.violate(Violation{Key: "C20:client-op:get:by-submitted-id", What: "GetICLFileByID with the ID submitted at creation fails: " + err.Error(), Replay: map[string]any{"id": create.ID}})
+		}
 	}
 	// the v2 create operation: whatever the server answers with a 2xx status the client must be able to decode
 	{
